@@ -144,6 +144,13 @@ theorem pick_is_safe (c : Compactor) (L : Levels) (o : Oracle) (cs : ChangeSet) 
     (hs : OracleSane c L o) (h : compact c L o = (some cs, c')) : safeCS L cs.rm cs.lvl cs.add = true :=
   compact_passes (weakValid_of_layoutValid hv) hid hage hlen hs h
 
+/-- … and for every arrangement of equal ages by the unstable sort (`OrderOK order`) -/
+theorem pick_is_safe_any_tie_order (order : List Tbl → List Tbl) (ho : OrderOK order)
+    (c : Compactor) (L : Levels) (o : Oracle) (cs : ChangeSet) (c' : Compactor)
+    (hv : LayoutValid L) (hid : (L.flatten.map (·.id)).Nodup) (hage : L0KeyAgeOrdered L) (hlen : 2 ≤ L.length)
+    (hs : OracleSane c L o) (h : compactWith order c L o = (some cs, c')) : safeCS L cs.rm cs.lvl cs.add = true :=
+  compactWith_passes order ho (weakValid_of_layoutValid hv) hid hage hlen hs h
+
 /-- **Reachable states of the DKV system with its compaction task**: after any history from the empty database
 (puts, deletes, rotations, flush begins and commits, two-phase reads, `Compact` calls with sane answers, compaction
 commits) the refinement invariant of C07 holds, table ids are distinct and below the counter, there are at least two
@@ -152,9 +159,36 @@ age-ordered: the hypothesis of `compact_is_safe` is *derived*), and a pending ch
 of a pick for the level list **as it is now**. -/
 theorem db_reachable_invariant (as : List DAct) (d : DB) (m : Spec)
     (hok : ({} : DB).runOK as) (h : ({} : DB).run [] as = some (d, m)) :
-    DInv d m ∧ L0KeyAgeOrdered d.s.levels ∧ WeakValid d.s.levels :=
+    DInv d m ∧ L0KeyAgeOrdered d.s.levels ∧ LayoutValid d.s.levels :=
   have hi := db_run_inv as {} [] d m dinv_init hok h
-  ⟨hi, keyAge_of_chron hi.chron, weakValid_of_inv hi.inv⟩
+  ⟨hi, keyAge_of_chron hi.chron, layoutValid_of_dinv hi⟩
+
+/-- **… from any state with the invariant, not only the empty database**: the invariant `DInv` (C07's `Lsm.Inv` and
+`ReadInv`, distinct table ids below the counter, at least two levels, `ChronSep`, deeper levels in key order, a
+pending change set of the picker's shape) is kept along every history, and in every state it reaches the level list
+is `LayoutValid` and level-0 tables sharing a key are age-ordered. -/
+theorem db_invariant_from_any_state (d0 : DB) (m0 : Spec) (hi0 : DInv d0 m0) (as : List DAct) (d : DB) (m : Spec)
+    (hok : d0.runOK as) (h : d0.run m0 as = some (d, m)) :
+    DInv d m ∧ L0KeyAgeOrdered d.s.levels ∧ LayoutValid d.s.levels :=
+  have hi := db_run_inv as d0 m0 d m hi0 hok h
+  ⟨hi, keyAge_of_chron hi.chron, layoutValid_of_dinv hi⟩
+
+/-- **What a restored instance must provide** (composition with C06): C06's `restored_instance_inv_partial` gives
+`Lsm.Inv s m` and `ReadInv s m` for the state `openDB` builds from several checkpoints. With, in addition, table ids
+pairwise distinct and below the counter (`LoadCheckpointList` creates one table object per document entry), at least
+two levels, level-0 tables sharing a key age-ordered (`composite_level0`: per-source age order, disjoint keys), the
+memtables separated in time and numbered above every level-0 entry (C06 `seq_above_loaded`: the instance continues
+above the largest loaded sequence number and the WAL is replayed through `Put`/`Delete`), and the deeper levels in
+key order (C06 `merged_levels_valid`), the restored state satisfies `DInv` with any compactor cursor — so
+`db_invariant_from_any_state`, `real_compaction_commit_from` and `pick_is_safe` apply to it and the real picker's change
+sets pass the guard there too (C06's `restored_history_refines_partial` need not assume it). -/
+theorem restored_start_has_invariant (s : Lsm.State) (m : Spec) (c : Compactor)
+    (hinv : Inv s m) (hr : ReadInv s m) (hids : IdsFresh s.levels s.nextId) (hlen : 2 ≤ s.levels.length)
+    (hage : L0KeyAgeOrdered s.levels)
+    (hmems : s.mems.Pairwise (fun older newer => ∀ e ∈ older, ∀ e' ∈ newer, e.seq < e'.seq))
+    (habove : ∀ t ∈ s.levels.headD [], ∀ r ∈ s.mems, ∀ e ∈ t.run, ∀ e' ∈ r, e.seq < e'.seq)
+    (hord : DeepOrdered s) : DInv { s := s, c := c, pending := none } m :=
+  ⟨hinv, hr, hids, hlen, ⟨hage, hmems, habove⟩, hord, fun cs h => by cases h⟩
 
 /-- **Live tables never share a number**: in every reachable state of the DKV system with its compaction task —
 flush commits and compaction commits interleaved in any way, a flush committing between the computation and the
@@ -171,12 +205,12 @@ theorem live_table_ids_distinct (as : List DAct) (d : DB) (m : Spec)
 change set — computed by `Compact` at some earlier moment, with any flush commits and writes in between — passes
 the guard, so the commit step exists, and after it every `Get` and every `ScanPrefix` answer what they answered
 before (and what the map of all writes says). -/
-theorem real_compaction_commit (as : List DAct) (d : DB) (m : Spec) (cs : ChangeSet)
-    (hok : ({} : DB).runOK as) (h : ({} : DB).run [] as = some (d, m)) (hp : d.pending = some cs) :
+theorem real_compaction_commit_from (d0 : DB) (m0 : Spec) (hi0 : DInv d0 m0) (as : List DAct) (d : DB) (m : Spec)
+    (cs : ChangeSet) (hok : d0.runOK as) (h : d0.run m0 as = some (d, m)) (hp : d.pending = some cs) :
     safeCS d.s.levels cs.rm cs.lvl cs.add = true ∧
     ∃ d', d.step .compactCommit = some d' ∧
       (∀ k, get d'.s k = get d.s k) ∧ (∀ p, scan d'.s p = scan d.s p) ∧ (∀ k, get d'.s k = Spec.get m k) := by
-  have hi := db_run_inv as {} [] d m dinv_init hok h
+  have hi := db_run_inv as d0 m0 d m hi0 hok h
   have hsafe := pending_commit_enabled hi hp
   refine ⟨hsafe, ?_⟩
   have hstep : d.step .compactCommit = some { d with
@@ -192,6 +226,14 @@ theorem real_compaction_commit (as : List DAct) (d : DB) (m : Spec) (cs : Change
   have h1 := scan_spec hi'.inv p
   have h2 := scan_spec hi.inv p
   exact sorted_mem_ext h1.1 h2.1 (fun e => by rw [h1.2 e, h2.2 e])
+
+/-- the same from the empty database -/
+theorem real_compaction_commit (as : List DAct) (d : DB) (m : Spec) (cs : ChangeSet)
+    (hok : ({} : DB).runOK as) (h : ({} : DB).run [] as = some (d, m)) (hp : d.pending = some cs) :
+    safeCS d.s.levels cs.rm cs.lvl cs.add = true ∧
+    ∃ d', d.step .compactCommit = some d' ∧
+      (∀ k, get d'.s k = get d.s k) ∧ (∀ p, scan d'.s p = scan d.s p) ∧ (∀ k, get d'.s k = Spec.get m k) :=
+  real_compaction_commit_from {} [] dinv_init as d m cs hok h hp
 
 /-- **A failed compaction changes nothing**: when a `Compact` call that would have produced a change set fails
 (a table write or a table scan returns an error) the DKV state — level list, memtables, id counter — is exactly what
@@ -263,10 +305,12 @@ the queue and called, released when it returns); every `compactor.Compact` call 
 enqueued on one and the same queue (so at most one `Compact` runs and at most one change set is pending);
 `LevelList.NewWithChangeSet` works on a clone of the receiver's levels and `Level`/`Set` operations never write to
 their receiver (a level list read by `currentSSTables()` never changes: `compactBegin` computes on a stable value);
-`db.sstables` is only ever replaced. -/
+`db.sstables` is only ever replaced; both commits (`db.sstables = db.sstables.NewWithChangeSet(cs)` of the flush task and
+of the compaction task) are read-modify-writes entirely inside one `db.mu.Lock()`…`Unlock()` section and
+`currentSSTables` reads under `RLock` (the model's `flushCommit` and `compactCommit` are atomic steps: no lost update). -/
 theorem source_structure :
     Facts.c18QueueSerial = 1 ∧ Facts.c18CompactOneQueue = 1 ∧ Facts.c18LevelListPersistent = 1 ∧
-    Facts.c18DbLevelsReplacedOnly = 1 := by decide
+    Facts.c18DbLevelsReplacedOnly = 1 ∧ Facts.c18CommitsUnderDbMu = 1 := by decide
 
 /-! ## The defect D22 (repaired): the picker as it was is outside the family and loses the newest version -/
 
